@@ -9,6 +9,7 @@
 -/
 import MofunModel.Props.C19Code6
 import MofunModel.Proofs.TermsLemmas
+import MofunModel.Props.C19Code
 
 namespace Mofun.C19Code8
 open Mofun Mofun.Generated Mofun.Code2Terms Mofun.C19Code6
@@ -72,5 +73,92 @@ example : Py6.listRemove? [2, 3, 0] 5 = none := by decide
 example : Code6.calcDihedrals [(2, 1), (1, 3), (1, 0), (3, 4)] = some [[2, 1, 3, 4], [0, 1, 3, 4]] := by decide
 example : Code6.calcDihedrals [(0, 1), (1, 2), (2, 3), (3, 0)] =
     some [[3, 0, 1, 2], [1, 0, 3, 2], [0, 1, 2, 3], [1, 2, 3, 0]] := by decide
+
+end Mofun.C19Code8
+
+/-! ## item 2: the type-numbering slice of `assign_bond_types` / `assign_angle_types` -/
+
+namespace Mofun.C19Code8
+open Mofun Mofun.Generated Mofun.Code2Terms
+
+theorem listMapM_eq_map {α β} (f : α → Option β) (g : α → β) (xs : List α) (h : ∀ x ∈ xs, f x = some (g x)) :
+    Py.listMapM? xs f = some (xs.map g) := by
+  induction xs with
+  | nil => rfl
+  | cons x xs ih =>
+    simp only [Py.listMapM?, h x List.mem_cons_self, ih (fun y hy => h y (List.mem_cons_of_mem _ hy)), List.map_cons]
+
+/-- every atom of every term has a UFF type (else `uff_atom_types[a]` raises IndexError) -/
+def InRange (uff : List String) (ts : List (List Nat)) : Prop := ∀ t ∈ ts, ∀ a ∈ t, a < uff.length
+
+/-- the keys, the first-seen unique list and the positions, for a term list whose atoms all have a type -/
+theorem numbering_eq (uff : List String) (ts : List (List Nat)) (h : InRange uff ts) :
+    (do let t3 ← Py.listMapM? ts (fun atup => (do let t2 ← (Py.listMapM? atup (fun a => (do let t1 ← (uff[a]?); pure t1))); pure (Code.typekey t2)))
+        let t5 ← Py.listMapM? t3 (fun bt => (do let t4 ← (Py6.listIndex? (Py6.fromkeysList t3) bt); pure t4))
+        pure (ts, t5)) =
+      some (ts, (ts.map (Terms.seqKey (Terms.uffFn uff))).map (Terms.typeIndex (dedup (ts.map (Terms.seqKey (Terms.uffFn uff)))))) := by
+  have h1 : Py.listMapM? ts (fun atup => (do let t2 ← (Py.listMapM? atup (fun a => (do let t1 ← (uff[a]?); pure t1))); pure (Code.typekey t2))) =
+      some (ts.map (Terms.seqKey (Terms.uffFn uff))) := by
+    apply listMapM_eq_map
+    intro t ht
+    have h2 : Py.listMapM? t (fun a => (do let t1 ← (uff[a]?); pure t1)) = some (t.map (Terms.uffFn uff)) := by
+      apply listMapM_eq_map
+      intro a ha
+      have := h t ht a ha
+      simp [Terms.uffFn, List.getElem?_eq_getElem this]
+    rw [h2]
+    simp [Terms.seqKey, C19Code.typekey_eq_str]
+  rw [h1]
+  simp only [Option.bind_eq_bind, Option.bind_some]
+  have h3 : Py.listMapM? (ts.map (Terms.seqKey (Terms.uffFn uff)))
+      (fun bt => (do let t4 ← (Py6.listIndex? (Py6.fromkeysList (ts.map (Terms.seqKey (Terms.uffFn uff)))) bt); pure t4)) =
+      some ((ts.map (Terms.seqKey (Terms.uffFn uff))).map (Terms.typeIndex (dedup (ts.map (Terms.seqKey (Terms.uffFn uff)))))) := by
+    apply listMapM_eq_map
+    intro k hk
+    obtain ⟨i, hi, _⟩ := Terms.indexOf?_of_mem (dedup (ts.map (Terms.seqKey (Terms.uffFn uff)))) k ((Terms.mem_dedup _ _).mpr hk)
+    simp [Py6.listIndex?, Py6.fromkeysList, Terms.typeIndex, hi]
+  rw [h3]
+  rfl
+
+theorem inRange_filter (uff : List String) (ts : List (List Nat)) (p : List Nat → Bool) (h : InRange uff ts) : InRange uff (ts.filter p) :=
+  fun t ht => h t (List.mem_filter.mp ht).1
+
+/-- **assignBondTypeIds_eq** — the slice of `assign_bond_types` regenerated from the source IS the model's `assignSimple 2`
+    (exclusion guard `len(exclude) >= 2`, keys, first-seen numbering) for every UFF type list, every `exclude`, every bond list whose
+    atoms all have a type; the coefficient function `params` does not enter the slice -/
+theorem assignBondTypeIds_eq (uff : List String) (params : List String → String) (excl : Option (List Nat)) (terms : List (List Nat))
+    (h : InRange uff terms) :
+    Code6.assignBondTypeIds terms uff excl =
+      some ((Terms.assignSimple 2 (Terms.uffFn uff) params excl terms).terms, (Terms.assignSimple 2 (Terms.uffFn uff) params excl terms).types) := by
+  unfold Code6.assignBondTypeIds Terms.assignSimple Terms.applyExclude
+  cases excl with
+  | none => exact numbering_eq uff terms h
+  | some s =>
+    simp only [Py.setLen, C19Code.deleteIfAllInSet_eq]
+    split
+    · exact numbering_eq uff _ (inRange_filter uff terms _ h)
+    · exact numbering_eq uff terms h
+
+/-- **assignAngleTypeIds_eq** — the same for `assign_angle_types` (guard `len(exclude) >= 3`) -/
+theorem assignAngleTypeIds_eq (uff : List String) (params : List String → String) (excl : Option (List Nat)) (terms : List (List Nat))
+    (h : InRange uff terms) :
+    Code6.assignAngleTypeIds terms uff excl =
+      some ((Terms.assignSimple 3 (Terms.uffFn uff) params excl terms).terms, (Terms.assignSimple 3 (Terms.uffFn uff) params excl terms).types) := by
+  unfold Code6.assignAngleTypeIds Terms.assignSimple Terms.applyExclude
+  cases excl with
+  | none => exact numbering_eq uff terms h
+  | some s =>
+    simp only [Py.setLen, C19Code.deleteIfAllInSet_eq]
+    split
+    · exact numbering_eq uff _ (inRange_filter uff terms _ h)
+    · exact numbering_eq uff terms h
+
+example : InRange ["C_3", "O_3", "H_"] [[0, 1], [1, 2], [2, 1], [0, 0]] := by simp [InRange]
+example : Code6.assignBondTypeIds [[0, 1], [1, 2], [2, 1], [0, 0]] ["C_3", "O_3", "H_"] (some [1, 2, 2]) = some ([[0, 1], [0, 0]], [0, 1]) := by decide
+example : Code6.assignBondTypeIds [[0, 1], [1, 2], [2, 1], [0, 0]] ["C_3", "O_3", "H_"] (some [1, 1]) = some ([[0, 1], [1, 2], [2, 1], [0, 0]], [0, 1, 1, 2]) := by decide
+example : Code6.assignBondTypeIds [[0, 3]] ["C_3", "O_3", "H_"] none = none := by decide
+example : Py6.fromkeysList [3, 1, 3, 2, 1] = [3, 1, 2] := by decide
+example : Py6.listIndex? [3, 1, 2] 2 = some 2 := by decide
+example : Py6.listIndex? [3, 1, 2] 5 = none := by decide
 
 end Mofun.C19Code8
